@@ -11,7 +11,9 @@ Rules
   R8.3  delegation: series.<x>_ref -> chart_data.<x>_ref(series) -> workbook_writer.<x>_ref(series) keep the name; each chart
         data class builds the workbook writer of its own kind; replace_data writes the workbook and the XML from the same
         chart data object
-  (column letters beyond Z (_column_reference), date serial numbers, cell values as stored by XlsxWriter: not decided)
+  R8.4  date serials: epochs and the 1900 leap-year compatibility rule equal the standard's definition (constants folded,
+        dates computed on constants)
+  (column letters beyond Z (_column_reference), cell values as stored by XlsxWriter: not decided)
 """
 
 from __future__ import annotations
@@ -277,6 +279,70 @@ class Decoder:
         return out
 
 
+def date_system_rule(ctx, prog, rid):
+    """Date categories are written as serial numbers of the workbook's date system (ECMA-376 Part 1, 18.17.4.1):
+    1904 base: serial 0 = 1904-01-01; 1900 base: serial 1 = 1900-01-01 and, for compatibility, a non-existent 1900-02-29
+    with serial 60, so every date from 1900-03-01 on is one more than its true day count.  The constants of
+    Category._excel_date_number are folded and compared with that definition (dates computed with datetime on constants)."""
+    import datetime
+
+    dm = prog.modules.get("pptx.chart.data")
+    cat = dm.classes.get("Category") if dm else None
+    f = cat.methods.get("_excel_date_number") if cat else None
+    if f is None:
+        raise AnalysisError("anchor vanished: Category._excel_date_number")
+    flag = f.node.args.args[1].arg
+    aliases_ = {}
+    for n in ast.walk(f.node):
+        if isinstance(n, ast.Assign) and isinstance(n.targets[0], ast.Tuple) and isinstance(n.value, ast.Tuple):
+            for t, v in zip(n.targets[0].elts, n.value.elts):
+                aliases_[t.id] = dotted(v)
+
+    def as_date(e):
+        if isinstance(e, ast.Call) and (aliases_.get(dotted(e.func), dotted(e.func)) or "").endswith("date") and len(e.args) == 3:
+            v = [prog.const(a, f.module) for a in e.args]
+            if all(isinstance(x, int) for x in v):
+                return datetime.date(*v)
+        return None
+
+    epochs = None
+    for n in ast.walk(f.node):
+        if isinstance(n, ast.IfExp) and dotted(n.test) == flag:
+            a, b = as_date(n.body), as_date(n.orelse)
+            if a and b:
+                epochs = {True: a, False: b}
+    adj = None
+    for n in ast.walk(f.node):
+        if isinstance(n, ast.If) and isinstance(n.test, ast.BoolOp) and isinstance(n.test.op, ast.And) and len(n.test.values) == 2:
+            g, c = n.test.values
+            if isinstance(g, ast.UnaryOp) and isinstance(g.op, ast.Not) and dotted(g.operand) == flag and isinstance(c, ast.Compare) \
+                    and isinstance(c.ops[0], (ast.Gt, ast.GtE)):
+                k = prog.const(c.comparators[0], f.module)
+                inc = [x for x in n.body if isinstance(x, ast.AugAssign) and isinstance(x.op, ast.Add) and dotted(x.target) == dotted(c.left)]
+                if isinstance(k, int) and len(inc) == 1:
+                    first = k + 1 if isinstance(c.ops[0], ast.Gt) else k
+                    adj = (first, prog.const(inc[0].value, f.module))
+    days = any(isinstance(n, ast.Attribute) and n.attr == "days" for n in ast.walk(f.node))
+    key = "Category._excel_date_number"
+    if epochs is None or adj is None or not days:
+        ctx.error(key, "date-system constants not recognised (epoch pair %s, leap adjustment %s)" % (epochs, adj))
+        return
+    probs = []
+    if (datetime.date(1904, 1, 1) - epochs[True]).days != 0:
+        probs.append("1904 system: 1904-01-01 gets serial %d, the standard says 0" % (datetime.date(1904, 1, 1) - epochs[True]).days)
+    if (datetime.date(1900, 1, 1) - epochs[False]).days != 1:
+        probs.append("1900 system: 1900-01-01 gets serial %d, the standard says 1" % (datetime.date(1900, 1, 1) - epochs[False]).days)
+    want_first = (datetime.date(1900, 3, 1) - epochs[False]).days
+    if adj[0] != want_first or adj[1] != 1:
+        d0 = epochs[False] + datetime.timedelta(days=min(adj[0], want_first))
+        probs.append("1900 system: the phantom 1900-02-29 is accounted for from day count %d on (+%s); it must be from %d on (1900-03-01), so "
+                     "dates around %s are off by one against the workbook" % (adj[0], adj[1], want_first, d0.isoformat()))
+    if probs:
+        ctx.violation(rid, key, "; ".join(probs), file=f.file, line=f.line)
+    else:
+        ctx.ok(rid, key, sample={"1904": "serial 0 = 1904-01-01", "1900": "serial 1 = 1900-01-01, +1 from 1900-03-01 on (day count >= %d)" % want_first})
+
+
 def run(ctx):
     from checks.c10 import load
 
@@ -289,8 +355,7 @@ def run(ctx):
         "affine expressions in the same quantities. Both are decoded from the source into polynomial normal forms and compared; the "
         "pairing of a reference with the data it must cover is read from the XML writers (which reference is placed next to which "
         "cached values). No workbook is produced or opened.")
-    ctx.not_decided = ["column letters from _column_reference (bijective base-26 loop)", "date serial numbers (1900/1904 systems)",
-                       "values as stored by XlsxWriter (shared strings, number formats)", "series.index == position in enumerate(chart_data) (premise)"]
+    ctx.not_decided = ["column letters from _column_reference (bijective base-26 loop)",                        "values as stored by XlsxWriter (shared strings, number formats)", "series.index == position in enumerate(chart_data) (premise)"]
 
     xm = prog.modules.get("pptx.chart.xlsx")
     wm = prog.modules.get("pptx.chart.xmlwriter")
@@ -519,3 +584,7 @@ def run(ctx):
     else:
         ctx.violation("R8.3", "Chart.replace_data", "replace_data does not rewrite the XML and the workbook from the same chart data object",
                       file=ch.file if ch else "src/pptx/chart/chart.py", line=rd.line if rd else 1)
+
+    # -- R8.4 ----------------------------------------------------------------------------------------------
+    ctx.rule("R8.4", "date categories: serial numbers follow the 1900 / 1904 date systems of the standard")
+    date_system_rule(ctx, prog, "R8.4")
